@@ -703,7 +703,7 @@ def run(ctx):
     # ---- (g) composition across cycles: exhaustive product with the reference monitor
     failed = any(not o.ok for o in ctx.obs)
     try:
-        product(ctx, M, dict(idle=idle, LH=LH, PW=PW, PM=PM, c16=c16, c32=c32, names=names, lat=lat))
+        product(ctx, M, dict(idle=idle, LH=LH, PW=PW, PM=PM, c16=c16, c32=c32, names=names))
     except AnalysisError as ex:
         if not failed:
             raise
@@ -824,7 +824,7 @@ def product(ctx, M, r):
        Environment assumption (stream protocol): a non-empty payload keeps offering words until the one marked last has been
        taken; words before the last one are full (mask 1111), the last one has mask 1111/0111/0011/0001."""
     ir, fsm, vs = M.ir, M.fsm, M.vs
-    idle, LH, PW, PM, c16, c32, names, lat = (r[k] for k in ('idle', 'LH', 'PW', 'PM', 'c16', 'c32', 'names', 'lat'))
+    idle, LH, PW, PM, c16, c32, names = (r[k] for k in ('idle', 'LH', 'PW', 'PM', 'c16', 'c32', 'names'))
     LDW0, LDEL, HDW0, HDEL = LH + '.dw0', LH + '.delayed', 'self.header.dw0', 'self.header.delayed'
     creg = sorted({t for a in ir.assigns if a.domain != 'comb' for t in a.lhs_sigs()
                    if t != PW and t != LH and not t.startswith(LH + '.')})
